@@ -1,25 +1,91 @@
 import GmQuic.Model.RecvBuf
+import GmQuic.Lemmas.RecvBuf
 /-!
 C08 — the receive buffer reassembles any fragment sequence into the original bytes.
-Property theorems only (helper lemmas live in `GmQuic/Lemmas/RecvBuf.lean`).
+Property theorems only (vocabulary `Inv`, `Op.SliceOf`, `arrived`, `maxEnd` and all helper lemmas live in
+`GmQuic/Lemmas/RecvBuf.lean`; the model is `GmQuic/Model/RecvBuf.lean`).
+`exSrc`/`exOps` (Lemmas file) is a concrete history with three overlapping fragments, an empty fragment, a
+fragment that is partly already read, and `read`/`next` in between; it witnesses every hypothesis below.
 -/
 namespace GmQuic.RecvBuf
 
-theorem ins_largest_mono (segs : List Seg) (start : Nat) (data : Bytes) (lg : Nat) :
-    lg ≤ (ins segs start data lg).2 := by
-  fun_induction ins segs start data lg
-  · simp
-  · simp; omega
-  · simp
-  · simp; omega
-  · simp_all
-  · rename_i h1 h2 h3 pre lg1 r lg' heq ih
-    simp only [heq] at ih
-    simp only [lg1] at ih
-    split at ih <;> omega
+/-! ### 1. invariant preserved by every operation -/
 
-theorem tryNext_largest (s : State) : (tryNext s).1.largest = s.largest := by
-  unfold tryNext; split <;> (try split) <;> simp
+/-- `recv` of a slice of `src` preserves the reassembly invariant. -/
+theorem recv_inv (src : Bytes) (s : State) (off : Nat) (data : Bytes)
+    (h : Inv src s) (hop : (Op.recv off data).SliceOf src) : Inv src (recv s off data).1 :=
+  recv_inv' h hop
+
+/-- `try_read` with any destination capacity preserves the invariant. -/
+theorem read_inv (src : Bytes) (s : State) (cap : Nat) (h : Inv src s) : Inv src (tryRead s cap).1 :=
+  read_inv' h cap
+
+/-- `try_next` preserves the invariant. -/
+theorem next_inv (src : Bytes) (s : State) (h : Inv src s) : Inv src (tryNext s).1 :=
+  next_inv' h
+
+-- non-vacuity: the invariant holds in a state with two stored segments and a non-zero read position,
+-- and the next fragment is an overlapping slice
+example : Inv exSrc (run (exOps.take 3)).buf ∧ (run (exOps.take 3)).buf.segs.length = 2 ∧
+    (run (exOps.take 3)).buf.nread = 1 ∧ (Op.recv 1 [2, 3, 4, 5, 6, 7]).SliceOf exSrc := by
+  refine ⟨(run_inv exSrc _ ?_).inv, by decide, by decide, by simp [Op.SliceOf, exSrc]⟩
+  simp [exOps, Op.SliceOf, exSrc]
+
+/-! ### 2. exactly the original bytes, in order, each byte once -/
+
+/-- For every `src` and every history whose fragments are slices of `src` (any order, overlap, duplication,
+empty pieces) interleaved with reads of any size and `try_next`: everything handed to the reader so far is
+exactly the first `nread` bytes of `src`, and the invariant holds. -/
+theorem read_prefix (src : Bytes) (ops : List Op) (h : ∀ op ∈ ops, op.SliceOf src) :
+    (run ops).out = src.take (run ops).buf.nread ∧ Inv src (run ops).buf :=
+  ⟨(run_inv src ops h).out, (run_inv src ops h).inv⟩
+
+example : (∀ op ∈ exOps, op.SliceOf exSrc) ∧ (run exOps).out = [1, 2, 3, 4, 5, 6, 7] ∧ (run exOps).buf.nread = 7 := by
+  refine ⟨?_, by decide, by decide⟩
+  simp [exOps, Op.SliceOf, exSrc]
+
+/-! ### 3. nothing missing -/
+
+/-- For EVERY history: the readable amount is exactly the contiguous arrived prefix beyond what was read —
+offset `x` lies below `nread + available` iff every offset up to `x` has arrived. -/
+theorem available_is_arrived_prefix (ops : List Op) (x : Nat) :
+    x < (run ops).buf.nread + available (run ops).buf ↔ ∀ y, y ≤ x → arrived ops y := by
+  have h := run_struct ops
+  rw [available_eq, contEnd_spec h.struct.1]
+  constructor
+  · intro hx y hy; exact (h.arr y).mpr (hx y hy)
+  · intro hx y hy; exact (h.arr y).mp (hx y hy)
+
+/-- For EVERY history and capacity: `try_read` returns exactly `min cap available` bytes and advances `nread`
+by that amount (it never stops early and never skips). -/
+theorem read_is_maximal (ops : List Op) (cap : Nat) :
+    (tryRead (run ops).buf cap).2.length = min cap (available (run ops).buf) ∧
+    (tryRead (run ops).buf cap).1.nread = (run ops).buf.nread + (tryRead (run ops).buf cap).2.length :=
+  read_len (run_struct ops).struct cap
+
+/-- For EVERY history: `try_next` yields a chunk iff something is readable; the chunk is non-empty and
+advances `nread` by its length. -/
+theorem next_some_iff_available (ops : List Op) :
+    ((tryNext (run ops).buf).2.isSome ↔ 0 < available (run ops).buf) ∧
+    (tryNext (run ops).buf).1.nread = (run ops).buf.nread + ((tryNext (run ops).buf).2.getD []).length :=
+  ⟨next_some_iff (run_struct ops).struct, next_len _⟩
+
+/-- Same premise as `read_prefix`: the bytes returned by the next `try_read` are exactly the slice of `src`
+behind the read position, of length `min cap available`. -/
+theorem read_returns_src_slice (src : Bytes) (ops : List Op) (h : ∀ op ∈ ops, op.SliceOf src) (cap : Nat) :
+    (tryRead (run ops).buf cap).2 =
+      (src.drop (run ops).buf.nread).take (min cap (available (run ops).buf)) := by
+  have hi := (run_inv src ops h).inv
+  have hc := (readGo_content (nread := (run ops).buf.nread) (cap := cap) ((inv_iff' _ _).mp hi).2.1).2
+  rw [← (read_is_maximal ops cap).1, tryRead_snd]
+  exact hc
+
+example : (∀ op ∈ exOps.take 4, op.SliceOf exSrc) ∧ available (run (exOps.take 4)).buf = 6 ∧
+    (tryRead (run (exOps.take 4)).buf 3).2 = [2, 3, 4] := by
+  refine ⟨?_, by decide, by decide⟩
+  simp [exOps, Op.SliceOf, exSrc]
+
+/-! ### 4. flow-control accounting -/
 
 /-- The flow-control increments reported by `recv` add up to `largest_offset`, for every history. -/
 theorem fresh_sums_to_largest (ops : List Op) :
@@ -41,5 +107,71 @@ theorem fresh_sums_to_largest (ops : List Op) :
       have := tryNext_largest r.buf
       simp only [Run.step]
       split <;> simp_all
+
+/-- For EVERY history `largest_offset` is the maximum `off + len` over the non-empty `recv` ops (0 if there
+is none) — so `fresh_sums_to_largest` really says "adds up to the highest offset seen". -/
+theorem largest_is_max_end (ops : List Op) : (run ops).buf.largest = maxEnd ops :=
+  (run_struct ops).lg
+
+/-- The same without the helper `maxEnd`: an upper bound of every non-empty fragment's end, and attained. -/
+theorem largest_is_max_end_explicit (ops : List Op) :
+    (∀ off data, Op.recv off data ∈ ops → data ≠ [] → off + data.length ≤ (run ops).buf.largest) ∧
+    ((run ops).buf.largest = 0 ∨
+      ∃ off data, Op.recv off data ∈ ops ∧ data ≠ [] ∧ off + data.length = (run ops).buf.largest) := by
+  rw [largest_is_max_end]
+  obtain ⟨h1, h2⟩ := maxEnd_is_max ops
+  refine ⟨?_, ?_⟩
+  · intro off data hm hd
+    have := h1 _ hm
+    simpa [Op.endOf, hd] using this
+  · rcases h2 with h2 | ⟨op, hm, h2⟩
+    · exact Or.inl h2
+    · by_cases h0 : maxEnd ops = 0
+      · exact Or.inl h0
+      · right
+        cases op with
+        | recv off data =>
+          by_cases hd : data = []
+          · simp [Op.endOf, hd] at h2; omega
+          · exact ⟨off, data, hm, hd, by simpa [Op.endOf, hd] using h2⟩
+        | read cap => simp [Op.endOf] at h2; omega
+        | next => simp [Op.endOf] at h2; omega
+
+example : (run exOps).buf.largest = 7 ∧ maxEnd exOps = 7 ∧ (run exOps).charged = 7 := by decide
+
+/-! ### 5. the Rust `loop` itself (branch-by-branch transliteration `recvLoop`) -/
+
+/-- Refinement: on a sorted, disjoint, non-empty segment list the transliterated Rust loop returns exactly
+what the single pass `ins` computes — for every start offset, fragment and `largest` — provided it is given
+at least `2·|segs| + 2` iterations.  In particular no panic site (`split_to`, `segments[i]`, `u64` underflow)
+is reachable. -/
+theorem recvLoop_eq_ins (lo hi : Nat) (segs : List Seg) (start : Nat) (data : Bytes) (lg fuel : Nat)
+    (hw : Wf lo hi segs) (hf : loopFuel segs ≤ fuel) :
+    recvLoop fuel segs start data lg = .done (ins segs start data lg).1 (ins segs start data lg).2 := by
+  have h := recvLoop_eq_ins_aux segs lo [] start data lg fuel (fun _ hm => by simp at hm) hw hf
+  simpa only [List.nil_append] using h
+
+/-- Termination: under the invariant, `recv` for ANY offset and data leaves the loop within
+`2·|segments| + 2` iterations (never out of fuel, never at a panic site), with the result of the single pass. -/
+theorem recv_loop_terminates (src : Bytes) (s : State) (h : Inv src s) (off : Nat) (data : Bytes) :
+    recvViaLoop s off data = .ok (recv s off data).1 (recv s off data).2 :=
+  recvViaLoop_eq_recv ((inv_iff' src s).mp h).1 off data
+
+/-- The same in every reachable state: after EVERY history (no premise on the fragments) the next `recv`
+through the loop equals the next `recv` through the single pass. -/
+theorem recv_loop_eq_recv_all_histories (ops : List Op) (off : Nat) (data : Bytes) :
+    recvViaLoop (run ops).buf off data = .ok (recv (run ops).buf off data).1 (recv (run ops).buf off data).2 :=
+  recvViaLoop_eq_recv (run_struct ops).struct off data
+
+-- non-vacuity: a state with three stored segments satisfies the hypotheses; the fragment overlaps all of them
+-- and the loop needs several iterations (4 units of fuel are not enough, the proved bound 8 is)
+example : Inv exSrc (run (exOps.take 4)).buf ∧
+    Wf (run (exOps.take 4)).buf.nread (run (exOps.take 4)).buf.largest (run (exOps.take 4)).buf.segs ∧
+    (run (exOps.take 4)).buf.segs.length = 3 ∧
+    recvLoop 4 ((run (exOps.take 2)).buf.segs ++ [⟨6, [7]⟩]) 0 exSrc 7 = .fuel ∧
+    recvLoop 8 ((run (exOps.take 2)).buf.segs ++ [⟨6, [7]⟩]) 0 exSrc 7
+      = .done [⟨0, [1, 2]⟩, ⟨2, [3, 4, 5]⟩, ⟨5, [6]⟩, ⟨6, [7]⟩, ⟨7, [8]⟩] 8 := by
+  refine ⟨(run_inv exSrc _ ?_).inv, (run_struct _).struct.1, by decide, by decide, by decide⟩
+  simp [exOps, Op.SliceOf, exSrc]
 
 end GmQuic.RecvBuf
